@@ -25,7 +25,10 @@ SPEC = {
     "search_factor": 2,
     "rule": "case = generated CONFIGURATION (0-3 periodic tasks, 1-4 programs of counted statements that can "
             "fault at a chosen activation: division by zero directly / inside a FUNCTION / inside a "
-            "FUNCTION_BLOCK, array index out of bounds; globals bound to %I/%Q/%M addresses of every size; an INT "
+            "FUNCTION_BLOCK, array index out of bounds; 0-2 function block instances per program associated with tasks "
+            "(`(u WITH T)`, run after the task's programs, faulting and non-faulting, before/after faulting programs); "
+            "programs whose initialiser divides by a RETAIN global that statements and debugger writes can set to 0, so "
+            "that warm restarts fail half-way; globals bound to %I/%Q/%M addresses of every size; an INT "
             "published through a SINT binding so that the publish phase can overflow) x 0-3 logging IoDrivers with "
             "scripted read/write failures x optional scripted RetainStore x safe-state maps over all address shapes "
             "(X/B/W/D/L, overlapping, %I/%M areas, hierarchical, wildcard, ill-typed values) x fault policy x watchdog "
@@ -37,7 +40,7 @@ SPEC = {
             "ends by handing the runtime to a real ResourceRunner thread (deterministic gate clock, watchdog "
             "enabled/disabled with a 1 ns or 1 h timeout, one in three with a simulation controller whose post-cycle "
             "step fails) and compares the thread's whole event log, final state and "
-            "last_error; cases 0-8 are the hand-written corpus (witnesses of the repaired defect, the central "
+            "last_error; cases 0-10 are the hand-written corpus (witnesses of the repaired defect, the central "
             "scenarios). non-trivial = a fault was raised and at least one later cycle request was refused, or the "
             "runner thread ended in Faulted; "
             "distinct = by hash of the case's operation lines",
@@ -59,7 +62,8 @@ SPEC = {
         "the health sink is not modelled (pending debugger writes, forced I/O values and forced variables are; what a "
         "write does to the storage is an arbitrary function `poke` in the theorems); "
         "IoAddress.bit <= 7 as IoAddress::parse guarantees",
-        "restart succeeds (its failure paths and what it does to variables are C09's subject)",
+        "what restart does to the variables is an arbitrary, fallible function in the theorems (C09's subject); whether it "
+        "gives programs new instances is reported by the harness per restart and followed by the concrete model",
         "the resource thread is modelled without pause/commands; the restart-request block is modelled as the code "
         "handles it (finding C08-runner-restart-failure: a failing load ends the thread without apply_fault)",
         "shared-global synchronisation (tick_with_shared / SharedGlobals) is another actor and not part of a cycle request",
@@ -77,7 +81,10 @@ MANIFEST = {
                   "runs no statement; induction over histories without restart/clear_fault, also across further "
                   "watchdog/simulation faults and configuration updates), c08_latched_queue / c08_queue_drained (debugger "
                   "variable and l-value writes queued while latched stay queued and never reach the storage; the first cycle "
-                  "that is not refused applies them in order and empties both queues), c08_error_latches / c08_fault_sources(_complete) / "
+                  "that is not refused applies them in order and empties both queues), c08_failed_restart / "
+                  "c08_latched_failed_restarts (a restart that returns an error touches nothing but the partly rebuilt storage: "
+                  "the latch stays and, by induction over histories in which every restart attempt fails, every cycle request "
+                  "stays refused), c08_error_latches / c08_fault_sources(_complete) / "
                   "c08_phase_errors / c08_source_{program,driver_read,driver_write} (whichever phase, driver or program "
                   "fails first, its error is returned, latched, and nothing later runs), c08_safe_image / "
                   "c08_cycle_safe_halt / c08_fault_op_safe (under a safe-state decision every entry whose value has the "
@@ -178,6 +185,12 @@ def oracle_case(case):
                 e = d["err"]
                 if e == "-":
                     bad.append("thread Faulted without last_error")
+                elif e != "ResourceFaulted" and (not evs or evs[-1] != "F:" + e) and \
+                        (policy == "restart" or wd == "restart") and e == "DivisionByZero":
+                    # the warm restart the thread performs for policy/action `restart` failed (an
+                    # initialiser divides by the RETAIN divisor): `restart_err` ends the thread without
+                    # apply_fault — the shape of known finding C08-runner-restart-failure
+                    bad.append(KNOWN_PREFIX + PROBES["restartload"][0])
                 elif e != "ResourceFaulted":
                     if not evs or evs[-1] != "F:" + e:
                         bad.append("thread reported a fault that is not the last event (not latched through apply_fault, or it went on)")
@@ -203,12 +216,17 @@ def oracle_case(case):
             safe = [(parse_addr(w[2 + 2 * i]), w[3 + 2 * i]) for i in range(int(w[1]))]
         if pre_faulted and name not in ("restart", "clear") and d["f"] != "1":
             bad.append("latch released without restart")
+        if name == "restart" and d["e"] != "-":
+            # a restart that returned an error is not a restart: latch and images as before
+            if prev is not None and (d["f"] != prev["f"] or d["lf"] != prev["lf"] or
+                                     any(d[x] != prev[x] for x in ("in", "out", "mem", "cc", "now"))):
+                bad.append("a failed restart changed the latch, the images, the clock or the cycle counter")
         if name == "cycle" and pre_faulted:
             if d["e"] != "ResourceFaulted":
                 bad.append("cycle on a faulted resource not refused")
             if d["ev"] != "-" or d["pr"] != "-" or d["st"] != prev["st"]:
                 bad.append("refused cycle executed statements or called a driver")
-            if d.get("ch") != "0" or any(d[x] != prev[x] for x in ("in", "out", "mem", "lf", "cc", "sr", "gv", "ns")):
+            if d.get("ch") != "0" or any(d[x] != prev[x] for x in ("in", "out", "mem", "lf", "cc", "sr", "gv", "ns", "fn")):
                 bad.append("refused cycle changed observable state")
         if name == "cycle" and d["e"] == "-" and d["f"] != "0":
             bad.append("successful cycle left the resource faulted")
@@ -254,6 +272,9 @@ PROBES = {
 }
 
 
+KNOWN_PREFIX = "KNOWN:"
+
+
 def run_probe(kind):
     """Returns (reproduces, line); reproduces is None when the probe could not be run."""
     import vlib  # noqa: PLC0415
@@ -287,6 +308,12 @@ def extra(ctx):
                              "impl": line, "clause": clause, "seed": ctx["seed"], "tier": ctx["tier"]})
     for c in ctx["cases"]:
         for k, op, impl, clause in oracle_case(c):
+            if clause.startswith(KNOWN_PREFIX):
+                listed = [f for f in vlib.known_findings("C08") if f.get("match") == clause[len(KNOWN_PREFIX):]]
+                if listed:
+                    if listed[0]["what"] not in known:
+                        known.append(listed[0]["what"])
+                    continue
             failures.append({"case": c.n, "op_index": k, "op": op, "impl": impl, "clause": clause,
                              "seed": ctx["seed"], "tier": ctx["tier"], "case_lines": c.lines,
                              "what": "the property's statement evaluated on the implementation's own answers fails"})
@@ -295,7 +322,8 @@ def extra(ctx):
     rows = ["fault_under_halt", "fault_under_safe", "fault_under_restart",
             "watchdog_under_halt", "watchdog_under_safe", "watchdog_under_restart",
             "simfault_under_safe", "cycle_refused", "cycle_fault_DivisionByZero", "cycle_fault_IoDriver",
-            "cycle_fault_Overflow", "cycle_fault_TypeMismatch"]
+            "cycle_fault_Overflow", "cycle_fault_TypeMismatch", "fb_units", "restart_failed_while_faulted",
+            "op_varwrite_while_faulted"]
     if len(ctx["cases"]) >= 200:
         missing = [r for r in rows if not stats.get(r)]
         if missing:
